@@ -909,6 +909,68 @@ def b_index_margins(S):
     return out
 
 
+def b_node_junctions(S):
+    """whole `determine_node_junctions` (both loops, the removal of the trace's own block, the index shift, the distance mask, the
+    error threshold, the marking of the trace and of the owners of the close points); pandas label / position semantics are the
+    small prelude functions pySeries / pyLocMask / pyIloc; the spatial index query and the distance are parameters"""
+    src = S[GENERAL]
+    q = "determine_node_junctions"
+    fn = find_func(ast.parse(src), q)
+    # flatten_tuples is what the prelude function says it is (shape-checked: owner index per element by bisect over the accumulated lengths)
+    ffn = find_func(ast.parse(src), "flatten_tuples")
+    ftxt = ast.unparse(ffn)
+    for need in ("accumulate([len(val_tuple) for _, val_tuple in enumerate(list_of_tuples)])", "list(chain(*list_of_tuples))",
+                 "[bisect(accumulated_idxs, idx) for idx in range(len(flattened_tuples))]", "return (flattened_idx_reference, flattened_tuples)"):
+        if need not in ftxt:
+            raise Untranslatable(f"flatten_tuples changed: {need} not found")
+    qtxt = "spatial_index_intersection(nodes_geoseries_sindex, geom_bounds(safe_buffer(point, snap_threshold * snap_threshold_error_multiplier * 10)))"
+    C = {
+        "flatten_tuples(nodes)": "(pyFlattenTuples nodes)",
+        "set()": "[]",
+        "gpd.GeoSeries(flattened_node_tuples)": "(pySeries flattened_node_tuples)",
+        "flattened_nodes_geoseries.sindex": "()",
+        "flattened_nodes_geoseries.loc[[idx_reference != idx for idx_reference in flattened_idx_reference]]":
+            "(pyLocMask flattened_nodes_geoseries (List.map (fun idx_reference => idx_reference != idx) flattened_idx_reference))",
+        qtxt: "(query point (snap_threshold * snap_threshold_error_multiplier * 10))",
+        "set(other_nodes_geoseries.index.values)": "(List.map Prod.fst other_nodes_geoseries)",
+        "flattened_idx_reference.index(idx)": "(List.idxOf idx flattened_idx_reference)",
+        "other_nodes_geoseries.iloc[node_candidates_idx]": "(pyIloc other_nodes_geoseries node_candidates_idx)",
+        "node_candidates.geometry.values": "(List.map Prod.snd node_candidates)",
+        "intersecting_point.distance(point)": "(dist intersecting_point point)",
+        "node_candidates.loc[intersection_data].index.to_list()": "(List.map Prod.fst (pyCompress node_candidates intersection_data))",
+        "flattened_idx_reference[other_index]": "(flattened_idx_reference.getD other_index 0)",
+    }
+    T = {"flatten_tuples(nodes)": "(List Nat) × (List P)", "set()": "List Nat", "indexes_with_junctions": "List Nat",
+         "gpd.GeoSeries(flattened_node_tuples)": "List (Nat × P)", "flattened_nodes_geoseries": "List (Nat × P)", "flattened_nodes_geoseries.sindex": "Unit",
+         "nodes_geoseries_sindex": "Unit", "points": "List P", "associated_point_count": "Nat",
+         "flattened_nodes_geoseries.loc[[idx_reference != idx for idx_reference in flattened_idx_reference]]": "List (Nat × P)", "other_nodes_geoseries": "List (Nat × P)",
+         qtxt: "List Nat", "node_candidates_idx": "List Nat", "set(other_nodes_geoseries.index.values)": "List Nat", "remaining_idxs": "List Nat",
+         "flattened_idx_reference.index(idx)": "Nat", "first_point_idx": "Nat", "val": "Nat",
+         "other_nodes_geoseries.iloc[node_candidates_idx]": "List (Nat × P)", "node_candidates": "List (Nat × P)",
+         "node_candidates.geometry.values": "List P", "intersecting_point.distance(point)": "Rat", "intersection_data": "List Bool",
+         "node_candidates.loc[intersection_data].index.to_list()": "List Nat", "flattened_idx_reference[other_index]": "Nat", "other_index": "Nat",
+         "flattened_idx_reference": "List Nat", "flattened_node_tuples": "List P"}
+    # the two callers: V NODE on trace ends with threshold 1, MULTI JUNCTION on all nodes with threshold 2
+    vt = ast.parse(S[TVALS])
+    consts_out = ""
+    for cname, fname, arg, lean in (("VNodeValidator", "determine_v_nodes", "endpoint_nodes", "vnode_error_threshold"),
+                                    ("MultiJunctionValidator", "determine_faulty_junctions", "all_nodes", "junction_error_threshold")):
+        f_ = find_func(vt, f"{cname}.{fname}")
+        rets = [st for st in f_.body if isinstance(st, ast.Return)]
+        if len(rets) != 1 or not isinstance(rets[0].value, ast.Call) or ast.unparse(rets[0].value.func) != "determine_node_junctions":
+            raise Untranslatable(f"{cname}.{fname} is not a call of determine_node_junctions")
+        kw = {k.arg: ast.unparse(k.value) for k in rets[0].value.keywords}
+        if {k: v for k, v in kw.items() if k != "error_threshold"} != {"nodes": arg, "snap_threshold": "snap_threshold",
+                                                                        "snap_threshold_error_multiplier": "snap_threshold_error_multiplier"}:
+            raise Untranslatable(f"{cname}.{fname} passes {kw}")
+        consts_out += f"def {lean} : Nat := {int(kw['error_threshold'])}\n"
+    return consts_out + "\n" + translate_function(
+        src, q, "determine_node_junctions",
+        {"nodes": "List (List P)", "snap_threshold": "Rat", "snap_threshold_error_multiplier": "Rat", "error_threshold": "Nat"}, "List Nat", C, types=T,
+        extra_params=[("{P}", "Type"), ("query", "P → Rat → List Nat"), ("dist", "P → P → Rat")],
+        slice_from="if len(nodes) == 0", default_num="Rat", join="tuple", nat_sub=True)
+
+
 def b_junction_shift(S):
     src = S[GENERAL]
     tree = ast.parse(src)
@@ -1148,6 +1210,7 @@ ITEMS: List[Item] = [
     Item("DefaultAzimuthSets", NETWORK, ["C15"], b_default_azimuth_sets),
     Item("CalcBins", AZIMUTH, ["C15"], b_calc_bins),
     Item("JunctionShift", GENERAL, ["C02", "C16"], b_junction_shift),
+    Item("NodeJunctions", GENERAL, ["C02", "C10"], b_node_junctions, extra_modules=[TVALS]),
     Item("ValidatorTable", TVALS, ["C09", "C13", "C02"], b_validator_table, extra_modules=[TVAL]),
     Item("ValidateStep", TVAL, ["C09", "C13"], b_validate_step),
     Item("UnderlapValidator", TVALS, ["C10", "C13"], b_underlap_validator),
